@@ -19,4 +19,8 @@ for f in sorted(glob.glob('/verif/evidence/*.json')):
 m=json.load(open('/verif/MANIFEST.json')); jsonschema.validate(m, json.load(open('/root/.vp/MANIFEST.schema.json')))
 print("evidence files valid:", len(glob.glob('/verif/evidence/*.json'))-bad, "invalid:", bad, "| manifest valid, checks:", len(m['checks']))
 P
+# every claimed check must have its evidence file tracked by git
+for id in $ids; do
+  git -C /verif ls-files --error-unmatch evidence/$id.json >/dev/null 2>&1 || { echo "UNTRACKED evidence/$id.json (git add it)"; rc=1; }
+done
 exit $rc
